@@ -9,20 +9,20 @@ From Calamine Require XmlText NumFmt.
 From Coq Require Import Strings.String.
 Open Scope N_scope.
 
-(* (1) A1 names: every row with r + 1 < 10^9 and every column below 26^6 (the no-overflow bounds of
-   the pre-hardening u32 scanner, through which the proof goes; A1..XFD1048576 is row < 2^20,
-   col < 2^14; the hardened u64 scanner accepts even more) reads back, in upper and in lower case,
-   and the name contains no '$' *)
+(* (1) A1 names: every row with r + 1 < 10^9 and every column below 26^6 (the bounds of
+   Col26_proofs.get_row_and_optional_column_a1_name, through which the proof goes; A1..XFD1048576
+   is row < 2^20, col < 2^14; the hardened u64 scanner, Col26.v, accepts even more) reads back, in
+   upper and in lower case, and the name contains no '$' *)
 Theorem C01_a1_roundtrip : forall row col,
   row + 1 < ROW_LIMIT -> col < COL_LIMIT ->
-  get_row_and_optional_column_x (a1_name row col) = Ok (row, Some col) /\
-  get_row_and_optional_column_x (map to_lower (a1_name row col)) = Ok (row, Some col) /\
+  get_row_and_optional_column (a1_name row col) = Ok (row, Some col) /\
+  get_row_and_optional_column (map to_lower (a1_name row col)) = Ok (row, Some col) /\
   ~ In ch_dollar (a1_name row col).
 Proof. exact a1_roundtrip_full. Qed.
 
 (* after the hardening the scanner is total: no input whatsoever makes it panic (listed for C06) *)
 Theorem C01_no_panic_get_row_and_optional_column : forall range,
-  get_row_and_optional_column_x range <> Panic /\ get_row_and_optional_column_x range <> OutOfFuel.
+  get_row_and_optional_column range <> Panic /\ get_row_and_optional_column range <> OutOfFuel.
 Proof. exact scanner_no_panic. Qed.
 
 Example C01_a1_grid_inside_limits : 1048575 + 1 < ROW_LIMIT /\ 16383 < COL_LIMIT.
@@ -206,8 +206,8 @@ Proof. exact refuted_rel_prefix. Qed.
 
 Check C01_a1_roundtrip : forall row col,
   row + 1 < ROW_LIMIT -> col < COL_LIMIT ->
-  get_row_and_optional_column_x (a1_name row col) = Ok (row, Some col) /\
-  get_row_and_optional_column_x (map to_lower (a1_name row col)) = Ok (row, Some col) /\
+  get_row_and_optional_column (a1_name row col) = Ok (row, Some col) /\
+  get_row_and_optional_column (map to_lower (a1_name row col)) = Ok (row, Some col) /\
   ~ In ch_dollar (a1_name row col).
 Check C01_xlsx_sheet_main : forall parse_f64 en sh,
   legal_sheet parse_f64 en sh = true ->
